@@ -18,12 +18,16 @@ import Urandom.Generated.Cert6700417
 import Urandom.Generated.Cert67280421310721
 import Urandom.Generated.Cert59649589127497217
 import Urandom.Generated.Cert5704689200685129054721
+import Urandom.Props.C03
 /-
 C08 - jump/split yield non-overlapping streams: fixed stride, full period.
 
 The theorems are about the model of `src/rng/xoshiro256.rs`, `splitmix64.rs`, `wyrand.rs`
 (`Urandom.Model.Word`, tied to the code by the `word` correspondence stream, which includes jump
-and split ops and the final state after every history).
+and split ops and the final state after every history), and, for ChaCha, about `ChaCha.State.jump`
+and the buffered block generator `Urandom.Block` (tied to `src/rng/chacha.rs` / `block.rs` by the
+`chacha` correspondence stream: jump/split-rich histories from stream ids at the 32-bit and 64-bit
+carry boundaries; every output and the serde-visible key/counter/stream/index compared).
 -/
 namespace Urandom.C08
 open Function Urandom Urandom.Xoshiro Urandom.XoLin Urandom.GF2
@@ -245,6 +249,84 @@ theorem weyl_split_disjoint (c : BitVec 64) (hc : half * c = half)
   have h0 : i * K + a < minimalPeriod (fun x => x + c) x := by omega
   have := (iterate_eq_iterate_iff_of_lt_minimalPeriod h0 h1).1 h
   omega
+
+/-! ### ChaCha: jump = the next 64-bit stream id -/
+section ChaChaJump
+open Urandom.ChaCha Urandom.Block
+
+/-- **`jump` moves a ChaCha state to the next stream id** (a full 64-bit increment: the carry from
+the low into the high stream word is part of it), and leaves key and block counter alone; for
+every key/counter/stream triple. -/
+theorem chacha_jump_next_stream (s : State) :
+    (State.jump s).getStream = s.getStream + 1 ∧ (State.jump s).getCounter = s.getCounter ∧
+    ((State.jump s).k0, (State.jump s).k1, (State.jump s).k2, (State.jump s).k3,
+     (State.jump s).k4, (State.jump s).k5, (State.jump s).k6, (State.jump s).k7) =
+      (s.k0, s.k1, s.k2, s.k3, s.k4, s.k5, s.k6, s.k7) := by
+  refine ⟨?_, rfl, rfl⟩
+  simp [State.jump, State.getStream, State.setStream, C02.join64_split]
+
+/-- `i` jumps: stream id + `i` (mod 2^64), same key and counter -/
+theorem chacha_jump_iterate (s : State) (i : ℕ) :
+    (State.jump^[i] s).getStream = s.getStream + BitVec.ofNat 64 i ∧
+    (State.jump^[i] s).getCounter = s.getCounter := by
+  induction i with
+  | zero => simp
+  | succ i ih =>
+    rw [Function.iterate_succ_apply']
+    obtain ⟨h1, h2, _⟩ := chacha_jump_next_stream (State.jump^[i] s)
+    refine ⟨?_, by rw [h2, ih.2]⟩
+    rw [h1, ih.1, BitVec.add_assoc]
+    congr 1
+    exact C03.ofNat_add i 1
+
+/-- **the generators obtained by fewer than 2^64 successive jumps/splits sit on pairwise distinct
+stream ids** -/
+theorem chacha_jumps_distinct (s : State) (i j : ℕ) (hij : i < j) (hj : j < 2 ^ 64) :
+    (State.jump^[i] s).getStream ≠ (State.jump^[j] s).getStream := by
+  rw [(chacha_jump_iterate s i).1, (chacha_jump_iterate s j).1]
+  intro h
+  have h' := (BitVec.add_right_inj _).mp h
+  have := congrArg BitVec.toNat h'
+  simp only [BitVec.toNat_ofNat] at this
+  rw [Nat.mod_eq_of_lt (by omega), Nat.mod_eq_of_lt hj] at this
+  omega
+
+/-- the buffered generator's `jump`: the core jumps and the buffer is invalidated (`index = !0`),
+so nothing of the old stream is served afterwards (`C03.jump_next_stream`) -/
+theorem chacha_block_jump (N : Nat) (b : BS State (BitVec 8)) :
+    (Block.jump (chachaCore N) b).core = State.jump b.core ∧ (Block.jump (chachaCore N) b).index = 2 ^ 32 - 1 :=
+  ⟨rfl, rfl⟩
+
+/-- `split` on the block generator: the child is the generator as it was, the parent jumps -/
+theorem chacha_split_semantics (N : Nat) (b : BS State (BitVec 8)) :
+    Block.split (chachaCore N) b = (b, Block.jump (chachaCore N) b) := rfl
+
+theorem run_append {κ β : Type} (C : Core κ β) : ∀ (a b : List Block.Op) (s : BS κ β),
+    (run C s (a ++ b)).1 = (run C s a).1 ++ (run C (run C s a).2 b).1 := by
+  intro a
+  induction a with
+  | nil => intro b s; simp [run]
+  | cons x a ih => intro b s; simp [run, ih]
+
+/-- **generators obtained by successive splits never return the same keystream position**: child
+`I` is split off first, the parent goes on (draws, jumps, further splits: `between`), child `J`
+is split off later; whatever both then draw (the earlier child not jumping itself), no position
+of the ghost keystream coordinates is handed out by both. -/
+theorem chacha_successive_children_disjoint (S C : ℕ) (buf : ℕ → Pos) (before between opsI opsJ : List Block.Op)
+    (hI : Block.Op.jump ∉ opsI) :
+    let p0 := (run posCore (Block.new (S, C) (buf 0)) before).2
+    let childI := (Block.split posCore p0).1
+    let p2 := (run posCore (Block.split posCore p0).2 between).2
+    let childJ := (Block.split posCore p2).1
+    ∀ p ∈ (run posCore childI opsI).1, ∀ q ∈ (run posCore childJ opsJ).1, p ≠ q := by
+  intro p0 childI p2 childJ p hp q hq
+  refine C03.split_disjoint S C buf before opsI (between ++ opsJ) hI p hp q ?_
+  rw [run_append]
+  exact List.mem_append_right _ hq
+
+example : (State.jump (State.new 0 0 0 0 0 0 0 0 7#64 0xffffffff#64)).getStream = 0x100000000#64 := by decide
+
+end ChaChaJump
 
 /-! ### split -/
 
